@@ -50,4 +50,6 @@ def run(ctx):
             st = core.Stream("configurations: stdout=%s%s (junk entries with non-ASCII / lone surrogates; fixtures)" % (enc, ", only authentication imported" if only_auth else ""),
                              cfg, rel, must, lambda c, i, m: True, env={"PYTHONIOENCODING": enc}, only_auth=only_auth)
             core.run_stream(ctx, st)
+    # warnings escalated to errors (python -W error): skipping an ignorable entry must not turn into an exception
+    core.run_stream(ctx, core.Stream("configurations: PYTHONWARNINGS=error (junk entries; fixtures)", cfg, rel, must, lambda c, i, m: True, env={"PYTHONWARNINGS": "error"}))
     ctx.assumptions = ["completeness theorems take 'valid' as the primitive's verdict; OpenPGP headers below 4 GiB"]
